@@ -356,11 +356,13 @@ def check(repo, run, tier):
     g(r3b, repo, run)
     g(r4, repo, run)
     g(unitrules.function_node_init, repo, run, 'C13.R5')
+    g(unitrules.suffix_constructors, repo, run, 'C13.R4')
     g.done()
 
 
 def mutants(repo):
     return [
+        Mutant('suffix-without-metadata-rejected', lambda r: in_func(r, 'yaml._bind_constructor', "pad_with_none(*tag_suffix.split(':', maxsplit=1), minlen=2)", "pad_with_none(*tag_suffix.split(':', maxsplit=1))"), ['C13.R4']),
         Mutant('function-args-not-normalised', lambda r: in_func(r, 'FunctionNode.__init__', "if args is not None and not isinstance(args, dict):", "if args is None and not isinstance(args, dict):"), ['C13.R5']),
         Mutant('bind-returns-target-when-empty', lambda r: in_func(r, 'BindNode.ayns.on_evaluate_impl', "        return partial(_func, *p, **kw_p, **kw)", "        if not p and not kw_p and not kw:\n            return _func\n        return partial(_func, *p, **kw_p, **kw)"), ['C13.R1']),
         Mutant('call-drops-positions-bound-by-name', lambda r: in_func(r, 'CallNode.ayns.on_evaluate_impl', "return _func(*p, **kw_p, **kw)", "return _func(*p, **kw)"), ['C13.R1']),
